@@ -44,6 +44,8 @@ pub assume_specification<T, E> [Option::<Result<T, E>>::transpose] (o: Option<Re
             o matches Some(Err(e)) ==> r == Err::<Option<T>, E>(e);
 pub assume_specification<T, E> [Result::<T, E>::unwrap_or] (a: Result<T, E>, d: T) -> (r: T)                         // A1
     ensures r == (match a { Ok(v) => v, Err(_) => d });
+pub assume_specification<T: Default, E> [Result::<T, E>::unwrap_or_default] (a: Result<T, E>) -> (r: T)                // A1 (the default value itself is not specified)
+    ensures a matches Ok(v) ==> r == v;
 pub assume_specification<T, E, U, F: FnOnce(T) -> Result<U, E>> [Result::<T, E>::and_then] (a: Result<T, E>, f: F) -> (r: Result<U, E>)   // A1
     requires a matches Ok(v) ==> f.requires((v,)),
     ensures a matches Ok(v) ==> f.ensures((v,), r), a matches Err(e) ==> r == Err::<U, E>(e);
